@@ -22,7 +22,16 @@ var schedAssumptions = []string{
 	"go-quartz's own dispatch loop is replaced by a virtual-time implementation that uses the real quartz triggers (its goroutine plumbing is trusted, not explored)",
 }
 
+var coarseAssumption = "actor-level exploration: thread switches between messages (HandleEnvelop entry), at blocking points, thread exits and explicit driver yields; preemption inside a message handler is not explored here (handler atomicity per actor is what C01 establishes in fine mode)"
+
 var properties = map[string]Prop{
+	"C05": {
+		Parts:       []Part{{Harness: "c05"}},
+		Level:       "model_checking",
+		QuickBudget: 150, ThoroughBudget: 1500,
+		Rule: "delay-bounded DFS over message-level schedules of the real actor.System for each scenario of the matrix failure-site x cause x decision x provider (+Become, kills, prelaunch failures, repeated restarts, failing hooks); oracle = per-incarnation trace grammar over everything behaviours saw; distinct_nontrivial = distinct per-actor trace summaries per scenario",
+		Assumptions: append([]string{coarseAssumption}, schedAssumptions...),
+	},
 	"C01": {
 		Parts:       []Part{{Harness: "c01"}},
 		Level:       "model_checking",
